@@ -525,3 +525,147 @@ Proof.
         with (map Fin (map (lin lo hi (S n)) (seq 1 (S n)))).
       rewrite map_map, last_map_seq. apply eeqb_fin. apply lin_last. lia.
 Qed.
+
+(* ------------------------------------------------------------------ expand_boundaries / add_outier_bins *)
+Lemma last_right_default : forall bins d d', bins <> [] -> last_right bins d = last_right bins d'.
+Proof.
+  induction bins as [|b t IH]; intros d d' Hne; [congruence|].
+  destruct t as [|b' t']; [reflexivity|]. rewrite !last_right_cons. apply IH. discriminate.
+Qed.
+
+Lemma set_last_right_cons2 : forall b b' t a1,
+  set_last_right (b :: b' :: t) a1 = b :: set_last_right (b' :: t) a1.
+Proof. intros [l r] b' t a1. reflexivity. Qed.
+
+Lemma set_last_right_length : forall bins a1, length (set_last_right bins a1) = length bins.
+Proof.
+  induction bins as [|b t IH]; intro a1; [reflexivity|].
+  destruct t as [|b' t']; [destruct b; reflexivity|].
+  rewrite set_last_right_cons2. cbn [length]. f_equal. apply IH.
+Qed.
+
+Lemma set_last_right_hd : forall b t a1 d, fst (hd d (set_last_right (b :: t) a1)) = fst b.
+Proof.
+  intros [l r] [|b' t'] a1 d; reflexivity.
+Qed.
+
+Lemma set_last_right_chain_from : forall bins r0 a1,
+  chain_fromb r0 bins = true -> chain_fromb r0 (set_last_right bins a1) = true.
+Proof.
+  induction bins as [|[l r] t IH]; intros r0 a1 Hc; [reflexivity|].
+  cbn [chain_fromb] in Hc. apply andb_true_iff in Hc. destruct Hc as [Hc Ht].
+  apply andb_true_iff in Hc. destruct Hc as [Heq Hlr].
+  destruct t as [|b' t'].
+  - cbn [set_last_right chain_fromb]. rewrite Heq. cbn [andb].
+    destruct (elt r a1) eqn:E; [|now rewrite Hlr].
+    now rewrite (elt_trans _ _ _ Hlr E).
+  - rewrite set_last_right_cons2. cbn [chain_fromb]. rewrite Heq, Hlr. cbn [andb]. now apply IH.
+Qed.
+
+Lemma set_last_right_last : forall bins a1 d, bins <> [] ->
+  last_right (set_last_right bins a1) d = (if elt (last_right bins d) a1 then a1 else last_right bins d).
+Proof.
+  induction bins as [|[l r] t IH]; intros a1 d Hne; [congruence|].
+  destruct t as [|b' t'].
+  - unfold last_right. cbn. reflexivity.
+  - rewrite set_last_right_cons2.
+    assert (Hs : exists b'' t'', set_last_right (b' :: t') a1 = b'' :: t'').
+    { pose proof (set_last_right_length (b' :: t') a1) as Hl.
+      destruct (set_last_right (b' :: t') a1) as [|b'' t'']; [cbn in Hl; lia|eauto]. }
+    destruct Hs as (b'' & t'' & Hs). rewrite Hs, !last_right_cons, <- Hs. apply IH. discriminate.
+Qed.
+
+Lemma chainb_as_from : forall l r t, chainb ((l, r) :: t) = chain_fromb l ((l, r) :: t).
+Proof. intros. cbn. now rewrite eeqb_refl. Qed.
+
+Lemma expand_boundaries_facts : forall bins a0 a1,
+  chainb bins = true ->
+  exists bins', expand_boundaries bins a0 a1 = Some bins' /\ chainb bins' = true /\ length bins' = length bins /\
+    lo_of bins' = (if elt a0 (lo_of bins) then a0 else lo_of bins) /\
+    hi_of bins' = (if elt (hi_of bins) a1 then a1 else hi_of bins).
+Proof.
+  intros [|[l r] t] a0 a1 Hc; [discriminate|].
+  cbn [expand_boundaries]. eexists. split; [reflexivity|].
+  set (l' := if elt a0 l then a0 else l).
+  assert (Hc1 : chainb ((l', r) :: t) = true).
+  { cbn in Hc |- *. apply andb_true_iff in Hc. destruct Hc as [Hlr Ht]. rewrite Ht, andb_true_r.
+    unfold l'. destruct (elt a0 l) eqn:E; [eapply elt_trans; eauto|exact Hlr]. }
+  split; [|split; [|split]].
+  - assert (Hs : exists r'' t'', set_last_right ((l', r) :: t) a1 = (l', r'') :: t'').
+    { destruct t as [|b' t']; [cbn; eauto|]. rewrite set_last_right_cons2. eauto. }
+    destruct Hs as (r'' & t'' & Hs). rewrite Hs, chainb_as_from, <- Hs.
+    apply set_last_right_chain_from. now rewrite <- chainb_as_from.
+  - now rewrite set_last_right_length.
+  - unfold lo_of. rewrite set_last_right_hd. reflexivity.
+  - unfold hi_of. rewrite set_last_right_last by discriminate.
+    assert (E : last_right ((l', r) :: t) NInf = last_right ((l, r) :: t) NInf).
+    { destruct t as [|b' t']; reflexivity. }
+    now rewrite E.
+Qed.
+
+Lemma chain_from_app_last : forall bins r0 a1 d,
+  bins <> [] -> chain_fromb r0 bins = true -> elt (last_right bins d) a1 = true ->
+  chain_fromb r0 (bins ++ [(last_right bins d, a1)]) = true.
+Proof.
+  induction bins as [|[l r] t IH]; intros r0 a1 d Hne Hc Hlt; [congruence|].
+  cbn [chain_fromb] in Hc. apply andb_true_iff in Hc. destruct Hc as [Hc Ht].
+  apply andb_true_iff in Hc. destruct Hc as [Heq Hlr].
+  destruct t as [|b' t'].
+  - unfold last_right in *. cbn in *. now rewrite Heq, Hlr, eeqb_refl, Hlt.
+  - rewrite last_right_cons in *. cbn [app chain_fromb]. rewrite Heq, Hlr. cbn [andb].
+    apply (IH r a1 d); auto. discriminate.
+Qed.
+
+Lemma last_right_app : forall bins b d, last_right (bins ++ [b]) d = snd b.
+Proof.
+  intros bins b d. unfold last_right. now rewrite last_last.
+Qed.
+
+Lemma lo_of_app : forall bins b, bins <> [] -> lo_of (bins ++ [b]) = lo_of bins.
+Proof. intros [|b0 t] b Hne; [congruence|reflexivity]. Qed.
+
+Lemma add_outlier_bins_facts : forall bins a0 a1,
+  chainb bins = true ->
+  exists bins', add_outlier_bins bins a0 a1 = Some bins' /\ chainb bins' = true /\
+    length bins' = (length bins + (if elt a0 (lo_of bins) then 1 else 0) + (if elt (hi_of bins) a1 then 1 else 0))%nat /\
+    lo_of bins' = (if elt a0 (lo_of bins) then a0 else lo_of bins) /\
+    hi_of bins' = (if elt (hi_of bins) a1 then a1 else hi_of bins).
+Proof.
+  intros [|[l r] t] a0 a1 Hc; [discriminate|].
+  cbn [add_outlier_bins]. cbv zeta.
+  set (bins := (l, r) :: t) in *.
+  set (bins1 := if elt a0 l then (a0, l) :: bins else bins).
+  exists (if elt (last_right bins1 PInf) a1 then bins1 ++ [(last_right bins1 PInf, a1)] else bins1).
+  split; [reflexivity|].
+  assert (Hne1 : bins1 <> []) by (unfold bins1, bins; destruct (elt a0 l); discriminate).
+  assert (Hlo1 : lo_of bins1 = (if elt a0 l then a0 else l)).
+  { unfold bins1, bins. destruct (elt a0 l); reflexivity. }
+  assert (Hc1 : chain_fromb (lo_of bins1) bins1 = true).
+  { unfold bins1. destruct (elt a0 l) eqn:E.
+    - cbn [lo_of hd fst chain_fromb]. rewrite eeqb_refl, E. cbn [andb]. unfold bins. now rewrite <- chainb_as_from.
+    - unfold bins. cbn [lo_of hd fst]. now rewrite <- chainb_as_from. }
+  assert (Hchain1 : chainb bins1 = true).
+  { destruct bins1 as [|[l1 r1] t1] eqn:Eb; [congruence|]. now rewrite chainb_as_from. }
+  assert (Hlast1 : forall d, last_right bins1 d = last_right bins NInf).
+  { intro d. unfold bins1. destruct (elt a0 l).
+    - unfold bins. rewrite last_right_cons. apply last_right_default. discriminate.
+    - apply last_right_default. discriminate. }
+  assert (Hlen1 : length bins1 = (length bins + (if elt a0 l then 1 else 0))%nat).
+  { unfold bins1. destruct (elt a0 l); cbn [length]; lia. }
+  change ((l, r) :: t) with bins. change (lo_of bins) with l.
+  change (hi_of bins) with (last_right bins NInf).
+  rewrite (Hlast1 PInf).
+  destruct (elt (last_right bins NInf) a1) eqn:E.
+  - split; [|split; [|split]].
+    + destruct bins1 as [|[l1 r1] t1] eqn:Eb; [congruence|].
+      change (((l1, r1) :: t1) ++ [(last_right bins NInf, a1)]) with ((l1, r1) :: (t1 ++ [(last_right bins NInf, a1)])).
+      rewrite chainb_as_from.
+      change ((l1, r1) :: (t1 ++ [(last_right bins NInf, a1)])) with (((l1, r1) :: t1) ++ [(last_right bins NInf, a1)]).
+      rewrite <- (Hlast1 NInf). apply chain_from_app_last; auto.
+      now rewrite (Hlast1 NInf).
+    + rewrite app_length, Hlen1. change (length [(last_right bins NInf, a1)]) with 1%nat. reflexivity.
+    + rewrite lo_of_app by exact Hne1. exact Hlo1.
+    + unfold hi_of. now rewrite last_right_app.
+  - split; [exact Hchain1|]. split; [rewrite Nat.add_0_r; exact Hlen1|]. split; [exact Hlo1|].
+    unfold hi_of. apply Hlast1.
+Qed.
